@@ -11,6 +11,7 @@
 -/
 import GIV.Lemmas.ProxySpec
 import GIV.Lemmas.ProxyGo
+import GIV.Lemmas.SemverGo
 namespace GIV.C20
 open GIV GIV.Proxy
 
@@ -550,5 +551,97 @@ theorem go_allHex_agrees (rev : Bytes) :
 -- the generated definition, evaluated by the kernel: "0123abcdef" and "0123abcdeg"
 example : GIV.Go.Proxy.allHex [48, 49, 50, 51, 97, 98, 99, 100, 101, 102] = some true := by decide +kernel
 example : GIV.Go.Proxy.allHex [48, 49, 50, 51, 97, 98, 99, 100, 101, 103] = some false := by decide +kernel
+
+/-! ### golang.org/x/mod/semver, translated from the library source the proxy is built against
+
+  `GIV.Go.Semver.*` (GIV/Gen/SemverGo.lean) is regenerated on every run from
+  `GOMODCACHE/golang.org/x/mod@<the version /repo's go.mod requires>/semver/semver.go`; the model's
+  `semverParse` / `semverIsValid` / `semverMajor` / `semverBuild` / `semverCompare` (until now transcribed and
+  correspondence-checked only) are what it computes, for every string. -/
+
+/-- For all strings `v`, `w`: no index, slice or loop budget of the translated `parse`, `IsValid`, `Major`,
+`Build`, `Compare` (and of everything they call) ever fails, and
+* `parse v` returns `ok = semverIsValid v`, and when ok a struct whose `major minor patch prerelease build` are
+  the model's `Parsed` (`ofGo`) and whose `short` is ".0.0" / ".0" / "" for vMAJOR / vMAJOR.MINOR / a full version;
+* `IsValid`, `Major`, `Build`, `Compare` are the model's `semverIsValid`, `semverMajor`, `semverBuild`, `semverCompare`. -/
+theorem go_semver_agrees (v w : Bytes) :
+    (∃ g, GIV.Go.Semver.parse v = some (g, semverIsValid v) ∧
+      ∀ p, semverParse v = some p → GIV.SemverGo.ofGo g = p ∧ g.short = GIV.SemverGo.semverShort v) ∧
+    GIV.Go.Semver.IsValid v = some (semverIsValid v) ∧
+    GIV.Go.Semver.Major v = some (semverMajor v) ∧
+    GIV.Go.Semver.Build v = some (semverBuild v) ∧
+    GIV.Go.Semver.Compare v w = some (semverCompare v w) :=
+  ⟨GIV.SemverGo.parse_eq v, GIV.SemverGo.IsValid_eq v, GIV.SemverGo.Major_eq v, GIV.SemverGo.Build_eq v,
+   GIV.SemverGo.Compare_eq v w⟩
+
+-- the generated definitions, evaluated by the kernel (shortened forms are valid in x/mod; the "v" is required)
+example : GIV.Go.Semver.IsValid (lit "v1.2.3-pre.1+meta") = some true := by decide +kernel
+example : GIV.Go.Semver.IsValid (lit "v1.02.3") = some false := by decide +kernel
+example : GIV.Go.Semver.IsValid (lit "v1.2") = some true := by decide +kernel
+example : GIV.Go.Semver.IsValid (lit "1.2.3") = some false := by decide +kernel
+example : GIV.Go.Semver.IsValid (lit "v1.2.3-01") = some false := by decide +kernel
+example : GIV.Go.Semver.IsValid (lit "v1.2.3-pre..1") = some false := by decide +kernel
+example : GIV.Go.Semver.Major (lit "v2.1.0") = some (lit "v2") := by decide +kernel
+example : GIV.Go.Semver.Build (lit "v2.0.0+incompatible") = some (lit "+incompatible") := by decide +kernel
+example : GIV.Go.Semver.Canonical (lit "v1.2") = some (lit "v1.2.0") := by decide +kernel
+example : GIV.Go.Semver.Canonical (lit "v1.2.3+meta") = some (lit "v1.2.3") := by decide +kernel
+example : GIV.Go.Semver.Compare (lit "v1.2.3-pre.2") (lit "v1.2.3-pre.10") = some (-1) := by decide +kernel
+example : GIV.Go.Semver.Compare (lit "v1.10.0") (lit "v1.9.0") = some 1 := by decide +kernel
+example : GIV.Go.Semver.Compare (lit "v1.2.3-rc1") (lit "v1.2.3") = some (-1) := by decide +kernel
+example : GIV.Go.Semver.Compare (lit "v1.2") (lit "v1.2.0+x") = some 0 := by decide +kernel
+example : GIV.Go.Semver.Compare (lit "bad") (lit "v0.0.0") = some (-1) := by decide +kernel
+
+/-- `Canonical` (the model has no counterpart; `semverCanonical` is its specification over the model's
+`semverParse`): the translated function never fails — `v[:len(v)-len(p.build)]` is in range because the build
+field is a suffix of `v` (`build_len`) — and returns "" for an invalid version, the version without its build
+suffix when there is one, and otherwise the version completed by ".0.0" / ".0" / "". -/
+theorem go_semver_canonical (v : Bytes) :
+    GIV.Go.Semver.Canonical v = some (GIV.SemverGo.semverCanonical v) ∧
+    (semverIsValid v = false → GIV.SemverGo.semverCanonical v = []) ∧
+    (∀ p, semverParse v = some p → p.build = [] →
+      GIV.SemverGo.semverCanonical v = v ++ GIV.SemverGo.semverShort v) ∧
+    (∀ p, semverParse v = some p → p.build ≠ [] →
+      GIV.SemverGo.semverCanonical v = v.take (v.length - p.build.length)) := by
+  refine ⟨GIV.SemverGo.Canonical_eq v, ?_, ?_, ?_⟩
+  · intro h
+    unfold semverIsValid at h
+    cases hp : semverParse v with
+    | none => simp [GIV.SemverGo.semverCanonical, hp]
+    | some p => simp [hp] at h
+  · intro p hp hb; simp [GIV.SemverGo.semverCanonical, hp, hb]
+  · intro p hp hb; simp [GIV.SemverGo.semverCanonical, hp, hb]
+
+example : GIV.SemverGo.semverCanonical (lit "v1") = lit "v1.0.0" ∧
+    GIV.SemverGo.semverCanonical (lit "v1.2.3-rc.1+build.5") = lit "v1.2.3-rc.1" := by decide +kernel
+
+/-- The parts of `parse` and `Compare`, each against the model's transcription, for every input: the byte class,
+the two "is a number" scans, `parseInt` (Go's `("", "", false)` is the model's `none`), `parsePrerelease` /
+`parseBuild` on a string that starts with '-' / '+' (the only way `parse` calls them), `compareInt`, `nextIdent`,
+and `comparePrerelease` on every pair that is equal, has an empty side or starts with the same byte — a
+prerelease field is empty or starts with '-' (`prerelease_head`), so `Compare` passes nothing else.  (On
+`"-a"`, `".a"` Go's `comparePrerelease` answers -1 and the model's 0: the model's comment "not reached" is
+what `prerelease_head` proves.) -/
+theorem go_semver_parts :
+    (∀ c, GIV.Go.Semver.isIdentChar c = some (isIdentChar c)) ∧
+    (∀ v, GIV.Go.Semver.isBadNum v = some (isBadNum v)) ∧
+    (∀ v, GIV.Go.Semver.isNum v = some (v.all isDigit)) ∧
+    (∀ v, GIV.Go.Semver.parseInt v = some (GIV.SemverGo.res3 (Proxy.parseInt v))) ∧
+    (∀ r, GIV.Go.Semver.parsePrerelease (45 :: r) = some (GIV.SemverGo.res3 (Proxy.parsePrerelease (45 :: r)))) ∧
+    (∀ r, GIV.Go.Semver.parseBuild (43 :: r) = some (GIV.SemverGo.res3 (Proxy.parseBuild (43 :: r)))) ∧
+    (∀ x y, GIV.Go.Semver.compareInt x y = some (Proxy.compareInt x y)) ∧
+    (∀ x, GIV.Go.Semver.nextIdent x = some (x.takeWhile (· ≠ 46), x.drop (x.takeWhile (· ≠ 46)).length)) ∧
+    (∀ x y, x = [] ∨ y = [] ∨ x.head? = y.head? →
+      GIV.Go.Semver.comparePrerelease x y = some (Proxy.comparePrerelease x y)) ∧
+    (∀ v p, semverParse v = some p → p.prerelease = [] ∨ p.prerelease.head? = some 45) :=
+  ⟨GIV.SemverGo.isIdentChar_eq, GIV.SemverGo.isBadNum_eq, GIV.SemverGo.isNum_eq,
+   fun v => by rw [GIV.SemverGo.parseInt_eq, GIV.SemverGo.parseIntRes_eq],
+   fun r => GIV.SemverGo.parsePrerelease_eq 45 r rfl, fun r => GIV.SemverGo.parseBuild_eq 43 r rfl,
+   GIV.SemverGo.compareInt_eq, GIV.SemverGo.nextIdent_eq, GIV.SemverGo.comparePrerelease_eq,
+   fun _ _ h => GIV.SemverGo.prerelease_head h⟩
+
+example : GIV.Go.Semver.parseInt (lit "12.3") = some (lit "12", lit ".3", true) := by decide +kernel
+example : GIV.Go.Semver.parseInt (lit "012") = some ([], [], false) := by decide +kernel
+example : GIV.Go.Semver.comparePrerelease (lit "-a") (lit ".a") = some (-1) ∧
+    Proxy.comparePrerelease (lit "-a") (lit ".a") = 0 := by decide +kernel
 
 end GIV.C20
